@@ -85,7 +85,7 @@ func packageVarNames(dir string) map[string]bool {
 // With pkgVars != nil, plain uses of package-level variables and of local variables captured by
 // a function literal are recorded too (vrt.V): the scratch buffer hoisted out of a function, the
 // value cached in a closure.
-func instrumentAccesses(fset *token.FileSet, f *ast.File, fields map[string]bool, pkgVars map[string]bool) bool {
+func instrumentAccesses(fset *token.FileSet, f *ast.File, fields map[string]bool, pkgVars map[string]bool, everyStmt string) bool {
 	pkgNames := map[string]bool{}
 	for _, imp := range f.Imports {
 		p, _ := strconv.Unquote(imp.Path.Value)
@@ -95,7 +95,7 @@ func instrumentAccesses(fset *token.FileSet, f *ast.File, fields map[string]bool
 		}
 		pkgNames[name] = true
 	}
-	in := &instr{fset: fset, fields: fields, pkgNames: pkgNames, pkgVars: pkgVars}
+	in := &instr{fset: fset, fields: fields, pkgNames: pkgNames, pkgVars: pkgVars, everyStmt: everyStmt}
 	if pkgVars != nil {
 		ast.Inspect(f, func(n ast.Node) bool {
 			switch n := n.(type) {
@@ -148,6 +148,7 @@ type instr struct {
 	used     bool
 	// variable instrumentation (nil pkgVars = off)
 	pkgVars   map[string]bool
+	everyStmt string // wide mode: package directory tag for vrt.Q ("" = off)
 	funcLits  [][2]token.Pos
 	funcDecls [][2]token.Pos
 }
@@ -198,12 +199,36 @@ func (in *instr) list(stmts []ast.Stmt) []ast.Stmt {
 	for _, s := range stmts {
 		hooks := in.collect(s)
 		out = append(out, hooks...)
+		if len(hooks) == 0 && in.everyStmt != "" {
+			// wide mode: a statement without recorded accesses is still a potential scheduling point
+			// (vrt.Q parks only when the harness has switched the package on)
+			_, isLabel := s.(*ast.LabeledStmt)
+			_, isCase := s.(*ast.CaseClause)
+			_, isComm := s.(*ast.CommClause)
+			if !isLabel && !isCase && !isComm {
+				p := in.fset.Position(s.Pos())
+				in.used = true
+				out = append(out, &ast.ExprStmt{X: &ast.CallExpr{
+					Fun: &ast.SelectorExpr{X: ast.NewIdent("vrt"), Sel: ast.NewIdent("Q")},
+					Args: []ast.Expr{&ast.BasicLit{Kind: token.STRING, Value: strconv.Quote(in.everyStmt)},
+						&ast.BasicLit{Kind: token.STRING, Value: strconv.Quote(fmt.Sprintf("%s:%d", filepath.Base(p.Filename), p.Line))}},
+				}})
+			}
+		}
 		if len(hooks) > 0 {
 			p := in.fset.Position(s.Pos())
-			out = append(out, &ast.ExprStmt{X: &ast.CallExpr{
-				Fun:  &ast.SelectorExpr{X: ast.NewIdent("vrt"), Sel: ast.NewIdent("P")},
-				Args: []ast.Expr{&ast.BasicLit{Kind: token.STRING, Value: strconv.Quote(fmt.Sprintf("%s:%d", filepath.Base(p.Filename), p.Line))}},
-			}})
+			posLit := &ast.BasicLit{Kind: token.STRING, Value: strconv.Quote(fmt.Sprintf("%s:%d", filepath.Base(p.Filename), p.Line))}
+			if in.everyStmt != "" {
+				out = append(out, &ast.ExprStmt{X: &ast.CallExpr{
+					Fun:  &ast.SelectorExpr{X: ast.NewIdent("vrt"), Sel: ast.NewIdent("PQ")},
+					Args: []ast.Expr{&ast.BasicLit{Kind: token.STRING, Value: strconv.Quote(in.everyStmt)}, posLit},
+				}})
+			} else {
+				out = append(out, &ast.ExprStmt{X: &ast.CallExpr{
+					Fun:  &ast.SelectorExpr{X: ast.NewIdent("vrt"), Sel: ast.NewIdent("P")},
+					Args: []ast.Expr{posLit},
+				}})
+			}
 		}
 		out = append(out, s)
 	}
